@@ -15,7 +15,9 @@ class FakeEndpoint:
         from twisted.internet.testing import StringTransport
         self.log.append(self.name)
         if not self.reachable:
-            return defer.fail(failure.Failure(error.ConnectionRefusedError('refused ' + self.name)))
+            # unreachable in different ways: refused, name does not resolve, connect timed out
+            exc = [error.ConnectionRefusedError, error.DNSLookupError, error.TimeoutError][len(self.log) % 3]
+            return defer.fail(failure.Failure(exc('unreachable ' + self.name)))
         self.proto = factory.buildProtocol(None)
         self.transport = StringTransport()
         self.proto.makeConnection(self.transport)
@@ -157,6 +159,12 @@ def loss_case(rnd, ncalls, timers, explicit, introspected, dup_cb, local=False):
         out = []
         conn.callRemote('/o', 'M%d' % i, interface='org.e.I', destination='org.e', timeout=(5 + i) if timers[i] else None).addBoth(out.append)
         outs.append(out)
+    if ncalls >= 2 and timers[0] and dup_cb:
+        # the caller gives one call up (Deferred.cancel()): it is still unanswered when the connection is lost
+        outs[0][:] = []
+        dcan = conn.callRemote('/o', 'Given_up', interface='org.e.I', destination='org.e', timeout=50)
+        dcan.addErrback(lambda f: None)
+        dcan.cancel()
     proxies = []
     iface = interface.DBusInterface('org.verif.P', interface.Method('M'), noRegister=True)
     for k in range(explicit):
